@@ -21,7 +21,8 @@ connection to `releaseWhenReady`; `transfer` sends under the lock; the stuck cha
 the pool mutex; `total++` is guarded by the limit inside the critical section; waiter channels have
 capacity 1; `dead` decrements once under the mutex; `release` is one critical section. -/
 theorem source_facts :
-    cfgOfSource = { handoutChecksDead := true, createCancelReleases := true } ∧ atomicityFacts = true ∧
+    cfgOfSource = { handoutChecksDead := true, createCancelReleases := true, bgOffersWaiters := true,
+                    totalUnderCheck := true, resetAlways := true } ∧ atomicityFacts = true ∧
     Facts.C27.handoutSites = 4 := by decide
 
 theorem good_source : Good cfgOfSource := by unfold Good; decide
@@ -61,7 +62,7 @@ transferred, polled after a stuck signal). -/
 theorem handout_alive (s s' : State) (a : Action) (h : step cfgOfSource s a = some s')
     (i : Nat) (y : Caller) (c : Nat) (hy : s'.callers[i]? = some y) (hp : y.pc = .using c)
     (hnot : ∀ x, s.callers[i]? = some x → x.pc ≠ .using c) : isDead s c = false :=
-  handout_checks good_source.1 a h i y c hy hp hnot
+  handout_checks good_source a h i y c hy hp hnot
 
 /-- The driver's executable monitor (limit + holder clauses) follows from the invariant. -/
 theorem monitor_limit_holders (m n : Nat) (s : State) (h : Reachable m n s) :
@@ -85,7 +86,7 @@ every connection in a channel, valid ids in the free list). -/
 theorem holdsB_reachable (m n : Nat) (s : State) (h : Reachable m n s) : holdsB s = true := by
   have hI := reachable_inv h
   obtain ⟨as, hr⟩ := h
-  have hK := kinv_run cfgOfSource as (kinv_init m n) hr
+  have hK := kinv_run good_source as (kinv_init m n) hr
   obtain ⟨h1, h2, h3⟩ := monitor_limit_holders m n s ⟨as, hr⟩
   have hpos : ∀ c, 1 ≤ holders s c → c < s.conns.length := by
     intro c hc
@@ -123,10 +124,18 @@ theorem holdsB_reachable (m n : Nat) (s : State) (h : Reachable m n s) : holdsB 
 /-- Pre-fix behaviour (D16): without the `Dead()` check on the transfer path a dead connection is
 handed out — max 1, two callers, the connection dies while it sits in the second caller's channel. -/
 theorem handout_dead_counterexample :
-    ∃ s, run { handoutChecksDead := false, createCancelReleases := true } (init 1 2)
+    ∃ s, run { cfgOfSource with handoutChecksDead := false } (init 1 2)
         [.start 0, .enter 0, .mk 0, .ready 0, .cwake 0 .ready, .start 1, .enter 1, .finish 0 .ok (some 0), .die 0,
          .wwake 1 .ch] = some s ∧
       s.callers[1]? = some { pc := .using 0, cancelled := false } ∧ isDead s 0 = true := ⟨_, rfl, by decide⟩
+
+/-- If `total++` is not in the critical section of the limit check (seeded C27-2: moved into
+`createConnection`), two callers pass the check before either has counted its connection: two live
+connections with limit 1. -/
+theorem total_outside_check_counterexample :
+    ∃ s, run { cfgOfSource with totalUnderCheck := false } (init 1 2)
+        [.start 0, .start 1, .enter 0, .enter 1, .mk 0, .mk 1] = some s ∧
+      s.max = 1 ∧ s.total = 2 ∧ liveCount s = 2 ∧ holdsB s = false := ⟨_, rfl, by decide⟩
 
 /-! Non-vacuity -/
 
